@@ -191,7 +191,9 @@ fn is_args_in_token(token: &str) -> bool {
 }
 
 fn expand_args_for_single_token(token: &str, args: &[String]) -> String {
-    let re = Regex::new(r"^(.*?)\$\{?([0-9]+|@)\}?(.*)$").unwrap();
+    // `${N}` or `$N`: a brace next to a reference written without braces is
+    // text (`{$1}`), it does not belong to the reference
+    let re = Regex::new(r"^(.*?)(?:\$\{([0-9]+|@)\}|\$([0-9]+|@))(.*)$").unwrap();
     if !re.is_match(token) {
         return token.to_string();
     }
@@ -212,8 +214,11 @@ fn expand_args_for_single_token(token: &str, args: &[String]) -> String {
         }
         for cap in re.captures_iter(&_token) {
             _head = cap[1].to_string();
-            _tail = cap[3].to_string();
-            let _key = cap[2].to_string();
+            _tail = cap[4].to_string();
+            let _key = match cap.get(2).or_else(|| cap.get(3)) {
+                Some(m) => m.as_str().to_string(),
+                None => String::new(),
+            };
             if _key == "@" {
                 result.push_str(format!("{}{}", _head, args[1..].join(" ")).as_str());
             } else if let Ok(arg_idx) = _key.parse::<usize>() {
